@@ -117,3 +117,18 @@ class ListInv(LoopRule):
                 c.require("inv.preserve", ix.scal_eq(v.items[0], mk(it, fr)(k)), f"{name}[k] equals its closed form", key=f"{self.tag}inv.preserve.{name}.value")
         for name, closed in self.scalars.items():
             c.require("inv.preserve", ix.scal_eq(fr.vars.get(name), closed(it, fr, k + 1)), f"{name} closed form", key=f"{self.tag}inv.preserve.{name}")
+
+
+class HavocAll(LoopRule):
+    """Invariant 'True': after the loop every variable the body may modify holds an arbitrary value of
+    its kind (given by a factory).  Used to verify code after a loop for *any* result of the loop (including
+    exits through break); it proves nothing about the loop body, which is not executed."""
+    skip_body = True
+
+    def __init__(self, factories):
+        self.factories = factories
+        self.modifies = tuple(factories)
+
+    def havoc(self, it, fr, k):
+        for name, mk in self.factories.items():
+            fr.vars[name] = mk(it, fr)
